@@ -227,6 +227,10 @@ def gen_c16_item(r: random.Random, idx: int):
         if not tparams or not any(k == "bound" for _sp, k, _t in attrs) or r.random() < 0.4:
             return attrs
         out = [a for a in attrs if a[1] != "bound"]
+        if r.random() < 0.2:
+            # the bound a serde user writes for serde's own impls (it says nothing about TS)
+            out.append(("serde", "!serde-bound", "bound = " + q(", ".join(f"{p}: vsupport::serde::Serialize" for p in tparams))))
+            return out
         if r.random() < 0.4 or len(tparams) == 1:
             out.append((r.choice(["ts", "ts", "serde"]), "!bound", "bound = " + q(", ".join(f"{p}: TS" for p in tparams))))
         else:
